@@ -19,6 +19,30 @@ claimed={
    text="Differential symbolic execution of tpl/scanner.Scan and scanner.Scan on the same bytes (41 concrete contexts + window of <= N symbolic bytes, both comment modes): offsets, literals, inserted semicolons and EOF must agree on inputs made of shared lexemes.",
    note="Trusted: gosym engine, z3. Shared-lexeme filter: no keywords, c/py strings, ~, @, **. Outside: lexemes longer than context+window, non-ASCII window bytes.",
    technique="differential symbolic execution of two real implementations over go/ssa with SMT (z3); native replay"),
+ "C33": dict(level="model_checking", ref="6 (C33)",
+   text="The token value is a single symbolic integer over the whole int range; String/Len/ForEach/IsOperator/IsKeyword/Precedence run from go/ssa and the engine forks over the token tables of the tree; every spelled operator/keyword token is scanned by the real XGo / TPL scanner and must come back as exactly that token. Complete for the (finite) tables.",
+   note="Trusted: gosym engine, z3. One open known finding (TILDE spelled '~' scans as ILLEGAL).",
+   technique="symbolic execution of go/ssa with SMT (z3): symbolic token value, solver-enumerated table forks"),
+ "C27": dict(level="model_checking", ref="6 (C27)",
+   text="Bounded symbolic execution of the real tpl.New (tpl/scanner, tpl/parser, tpl/cl, strconv.Unquote/UnquoteChar) on grammar text = one of 20 concrete frames around a window of <= N symbolic bytes; an escaping panic is the violation.",
+   note="Trusted: gosym engine, z3. Outside: malformed regions longer than the window; non-ASCII window bytes.",
+   technique="symbolic execution of go/ssa with SMT (z3) path feasibility; native replay"),
+ "C28": dict(level="model_checking", ref="6 (C28)",
+   text="Grammars generated from symbolic selectors (incl. nullable repetitions, direct and indirect left recursion), compiled by the real tpl.New and matched by the real matcher on symbolic token inputs; exceeding an instruction/call-depth budget far above any terminating match is non-termination, confirmed natively under a wall-clock limit.",
+   note="Trusted: gosym engine, z3, token-stream stub. Bounded by grammar depth/alphabet and token count.",
+   technique="symbolic execution of go/ssa with SMT (z3); termination as a budget obligation; native replay with timeout"),
+ "C29": dict(level="model_checking", ref="6 (C29)",
+   text="Differential: the real matcher vs a reference matcher written from tpl/README.md, on generated grammars and symbolic token inputs (kinds, literals, adjacency): success/failure, tokens consumed and result tree must agree.",
+   note="Trusted: gosym engine, z3, the README-derived reference matcher in harness/c28/tplgen.go. Bounded by grammar depth/alphabet and token count.",
+   technique="differential symbolic execution (implementation vs reference model) over go/ssa with SMT (z3)"),
+ "C30": dict(level="model_checking", ref="6 (C30)",
+   text="List/ListOp/RangeOp/BinaryOp*/BinaryExpr* run symbolically on R % sep results with symbolic operands and an UNINTERPRETED combining function: equality with the left-nested application term is required for every interpretation. The README calculator grammar (real tpl.New + matcher) is compared with a precedence-climbing evaluator on symbolic token streams.",
+   note="Trusted: gosym engine, z3 (UF + bit-vectors). Bounded list length / token count.",
+   technique="symbolic execution of go/ssa with SMT (z3) using uninterpreted functions"),
+ "C31": dict(level="model_checking", ref="6 (C31)",
+   text="Every rule body of <= NTOK tokens over the 10-token grammar-expression alphabet (kinds are symbolic selectors) is parsed by the real tpl/parser and compared with a reference precedence parser; ill-formed bodies must yield an error.",
+   note="Trusted: gosym engine, z3, the reference parser in harness/c31. Bounded token count.",
+   technique="differential symbolic execution (implementation vs reference parser) over go/ssa with SMT (z3)"),
 }
 na_default="check not built yet (work in progress)"
 na={}
